@@ -476,7 +476,7 @@ def resume_value_reaches_future(chk: Check, rule: str) -> None:
     # (a subclass may add its own wake-up -- the workchain's awaitable completion resolves the future with NULL, that is
     # C10's mechanism; the rule is about the base state, where resume() is the only source of a result)
     for c in [w]:
-        for f in c.vmethods.values():
+        for f in c.emethods.values():
             f = prog.view(f)   # (the same view ``mine`` was collected from: call nodes are compared by identity)
             for s in writer_sites(chk.ctx, f, [LOC]):
                 if f.name == 'exit':
